@@ -51,6 +51,19 @@ def run(c):
         for e in sorted(singles, key=len)[:3] + sorted(singles, key=len)[-1:]:
             cases.append(dict(k="pured", entry="plain", inp=b0 + [u] + e))
             cases.append(dict(k="pured", entry="plain", inp=b0 + e + [u, u] + e))
+    # every value of every one-octet length field WITH that much content behind it (a length the tables do not allow must be
+    # refused without the input having been touched on the way): one accepted representative per (message, element)
+    rep = {}
+    for g in sorted((g for g in gen if g["ok"] and not g["unk"] and TBL[g["m"]]["family"] != "ENV"), key=lambda g: -len(g["inp"])):
+        for pos, lsz, sname in length_positions(g["m"], g["inp"]):
+            rep.setdefault((g["m"], sname, lsz), (g["inp"], pos))
+    tailpad = [(i * 37 + 11) % 255 + 1 for i in range(300)]
+    for (mname, sname, lsz), (inp, pos) in sorted(rep.items()):
+        if lsz != 1: continue
+        for v in range(256):
+            if v != inp[pos]:
+                cases.append(dict(k="pured", entry="plain", inp=inp[:pos] + [v] + inp[pos + 1:] + tailpad))
+    c.cov["length_octets_swept_with_content"] = sum(1 for (_, _, l) in rep if l == 1)
     accd = [g for g in use if g["ok"] and TBL[g["m"]]["family"] != "ENV"]
     for g in rng.sample(accd, min(len(accd), 300 if not thorough else 3000)):      # the same messages inside a security-protected envelope
         for sht in (1, 2, 3, 4):
